@@ -713,6 +713,11 @@ class Machine:
                        f"(the previous cache was a {type(old).__name__} with tolerance {old.tolerance})")
         self.ctx.check(len(new) == 0, "set_cache", f"after set_cache({CACHE_TYPES[new_kind]!r}) the new cache holds {len(new)} entries")
         del self.log[:]  # a fresh cache may run the body again for earlier inputs
+        # the discipline's local data and Jacobian were produced under the previous policy (possibly a within-tolerance
+        # hit, found by the thorough tier at seed 4): linearize(execute=False) right after set_cache would be judged
+        # against the wrong policy, so the next linearisation executes first
+        self.last_key = None
+        self.has_outputs = False
         self.flags["set_cache_same_type" if same_type else "set_cache_other_type"] += 1
 
     def reopen(self, step):
